@@ -14,13 +14,18 @@ from .wire import ENTRIES, arg_token, dtags_token, script_token, hx, rand_val, r
 
 class MCase:
     def __init__(self, prefix, dtags, dcid, script, steps):
-        # steps: ("S",) | ("Z",) | ("I"|"T", kind, ty, v, key, tags)
+        # steps: ("S",) | ("Z",) | ("I"|"T", kind, ty, v, key, tags) | ("G",) | ("GT",) | ("Q",) | ("QT",)
+        # G/Q (get_global_default / is_global_default_set, T = on a fresh thread) are not steps of the model: they change
+        # nothing; the model runs the case without them (ft given), the judge evaluates them against "a set came before"
         self.prefix, self.dtags, self.dcid, self.script, self.steps = prefix, dtags, dcid, script, steps
 
     def line(self, ft=None):
         st = []
         for s in self.steps:
-            if s[0] in "SZ":
+            if s[0] in ("G", "GT", "Q", "QT"):
+                if ft is None:
+                    st.append(s[0])
+            elif s[0] in "SZ":
                 st.append(s[0])
             else:
                 _, kind, ty, v, key, tags = s
@@ -32,7 +37,7 @@ class MCase:
     # the shape wire.judge_call / wire.all_float_bits expect
     @property
     def calls(self):
-        return [("Q", s[1], s[2], s[3], s[4], [("t", k, x) for k, x in s[5]]) for s in self.steps if s[0] in "IT"]
+        return [("Q", s[1], s[2], s[3], s[4], [("t", k, x) for k, x in s[5]]) for s in self.steps if s[0] in ("I", "T")]
 
 
 def rand_tags(rng, n, mode):
@@ -83,6 +88,14 @@ def gen_cases(rng, n_random):
             steps.append((rng.choice("IIT"), kind, ty, rand_val(rng, ty), rand_str(rng, mode), rand_tags(rng, rng.choice([0, 1, 1, 2, 3, 4, 5]), mode)))
             script.append(None if rng.random() < 0.7 else (rng.randrange(12), rng.randrange(1000)))
         cases.append(MCase(prefix, dtags, dcid, script, steps))
+    # the holder's read functions before, between and after the sets and invocations of every second case
+    for c in cases[::2]:
+        st = []
+        for s in c.steps:
+            if rng.random() < 0.4:
+                st.append((rng.choice(["G", "GT", "Q", "QT"]),))
+            st.append(s)
+        c.steps = [("Q",), ("G",)] + st + [("G",), ("QT",), ("GT",)]
     return cases
 
 
@@ -105,6 +118,13 @@ def judge(case, obs, ftext):
             continue
         ob = per[i] if i < len(per) else "missing,~,~,~"
         i += 1
+        if s[0] in ("G", "GT", "Q", "QT"):
+            want = ("g" if s[0][0] == "G" else "q") + ("0" if which is None else "1")
+            if ob.split(",")[0] != want:
+                bad.append("%s reported %s %s a client had been set (step %d)" % (
+                    "get_global_default()" if s[0][0] == "G" else "is_global_default_set()", ob.split(",")[0],
+                    "before" if which is None else "after", i))
+            continue
         ret, emitted, handled, evals = ob.split(",")
         _, kind, ty, v, key, tags = s
         n = len(tags)
@@ -196,7 +216,9 @@ def check_C17(tier, seed):
         rep.violation_input("%s (%d failing invocations; smallest case shown)" % (msg[:300], len(failures)),
                             {"bin": "mac", "case": l, "implementation": o[:3000], "clause": msg,
                              "how": "build/target/release/harness mac <file with the case line> (runs the case in a fresh child process)"})
-    dis = [(len(l), l, i, m) for l, i, m in zip(lines, impl, model) if i != m]
+    def no_queries(o):
+        return "|".join(x for x in o.split("|") if x[:1] not in ("g", "q"))
+    dis = [(len(l), l, i, m) for l, i, m in zip(lines, impl, model) if no_queries(i) != m]
     if dis and not failures:
         dis.sort()
         _, l, i, m = dis[0]
@@ -215,6 +237,9 @@ def check_C17(tier, seed):
                 is_set = True
                 dist["second_set"] += 1 if s[0] == "Z" else 0
                 continue
+            if s[0] in ("G", "GT", "Q", "QT"):
+                dist["holder_reads"] = dist.get("holder_reads", 0) + 1
+                continue
             dist["invocations"] += 1
             dist["unset"] += 0 if is_set else 1
             dist["on_fresh_thread"] += 1 if s[0] == "T" else 0
@@ -223,7 +248,7 @@ def check_C17(tier, seed):
             dist["entry_points"][ek] = dist["entry_points"].get(ek, 0) + 1
         dist["refused"] += o.count("eio:")
         dist["rejected_value"] += o.count("einv")
-        if any(s[0] in "IT" for s in c.steps):
+        if any(s[0] in ("I", "T") for s in c.steps):
             nt.add(case_hash(l))
     rep.cov["evaluations"] = dist["invocations"]
     rep.cov["distinct_nontrivial"] = len(nt)
